@@ -100,7 +100,7 @@ def audit(path, root):
 
 TREES = ["none_missing", "some_missing", "unreadable_file", "invalid_utf8", "empty_source_dir", "missing_source_dir", "bad_config",
          "missing_config", "big_tree"]
-LOCKS = ["absent", "valid", "valid_behind", "corrupt", "empty", "absent+stale_scratch", "valid+stale_scratch"]
+LOCKS = ["absent", "valid", "valid_behind", "valid_handwritten", "corrupt", "empty", "absent+stale_scratch", "valid+stale_scratch"]
 # how check mode is asked for (drawn per point, not a product dimension): every spelling the command line accepts or
 # rejects - a rejected command line must not touch anything either
 ARGS = ["-c CFG --check", "--check -c CFG", "--config CFG --check", "-c CFG --check --check", "--check --config=CFG", "-cCFG --check",
@@ -155,10 +155,16 @@ def work(job):
         elif tree == "bad_config":
             cfg = box.write("Breadlog.yaml", "---\nsource_dir: [1, 2\n")
         else:
-            cfg = box.write("Breadlog.yaml", core.make_config(use_cache=cache, structured=True if structured else None))
+            # the source directory is given relative to the configuration file or as an absolute path
+            sdir = "src" if core.rng_for("c04src", seed, i).random() < 0.6 else os.path.join(box.proj, "src")
+            cfg = box.write("Breadlog.yaml", core.make_config(source_dir=sdir, use_cache=cache, structured=True if structured else None))
         lockp = os.path.join(box.proj, "Breadlog.lock")
         if lock == "valid":
             open(lockp, "w").write(core.lock_text(50))
+        elif lock == "valid_handwritten":
+            # parses to a number but is not byte for byte what the tool writes (no header, CRLF, comment, other key order)
+            open(lockp, "w", newline="").write(rnd.choice(["next_reference_id: 50\n", core.lock_text(50).replace("\n", "\r\n"), "# ours\nnext_reference_id:   50   # resolved by hand\n",
+                                                           "---\nnext_reference_id: 50\n...\n"]))
         elif lock == "valid_behind":
             # well-formed, but at or below references that are in the code (a lock restored from an old commit)
             open(lockp, "w").write(core.lock_text(rnd.choice([1, 2, 9])))
